@@ -132,11 +132,11 @@ public:
   /**
    * @return A random number drawn from a gamma distribution.
    * @param alpha The alpha parameter.
-   * @param beta The beta parameter.
+   * @param beta The beta parameter (a rate, as in pGamma and qGamma).
    */
   static double randGamma(double alpha, double beta)
   {
-    std::gamma_distribution<double> dis(alpha, beta);
+    std::gamma_distribution<double> dis(alpha, 1. / beta); // the standard library takes the scale
     return dis(DEFAULT_GENERATOR);
   }
 
